@@ -120,7 +120,7 @@ Definition check_pbf : P (list Z) :=
   mode <- pint ;; filter <- pint ;; calls <- plist ptriple ;;
   rac <- pint ;; hdrlate <- pint ;; leaked <- pint ;;
   let inp := mk_input filter 0 its in
-  let c := mkCfg n inp resume 0 true in
+  let c := mkCfg n inp resume 0 true true true in
   let fuel := (4 * length its + 4 * n + 60)%nat in
   let j1 :=
     if mode =? 0 then
